@@ -128,6 +128,10 @@ func genTenant(t *rapid.T) string {
 // counts, a shared metric name, values that are prefixes of each other.
 func mkSeries(salt, i int) *prompb.TimeSeries {
 	var ls []labelpb.ZLabel
+	if (salt+i)%7 == 3 {
+		// a big label set (> 1 KiB): labelpb.HashWithPrefix hashes those on a separate code path
+		return &prompb.TimeSeries{Labels: []labelpb.ZLabel{{Name: "__name__", Value: "big"}, {Name: "blob", Value: strings.Repeat(strconv.Itoa(i%10), 1100+(salt+i)%300)}, {Name: "i", Value: strconv.Itoa(i)}}}
+	}
 	switch (salt + i) % 4 {
 	case 0:
 		ls = []labelpb.ZLabel{{Name: "__name__", Value: "m" + strconv.Itoa(salt)}, {Name: "i", Value: strconv.Itoa(i)}}
@@ -148,7 +152,11 @@ func renderSeries(ts *prompb.TimeSeries) string {
 		if i > 0 {
 			sb.WriteByte(',')
 		}
-		fmt.Fprintf(&sb, "%s=%q", l.Name, l.Value)
+		v := l.Value
+		if len(v) > 40 {
+			v = fmt.Sprintf("%s…(%d bytes)", v[:8], len(v))
+		}
+		fmt.Fprintf(&sb, "%s=%q", l.Name, v)
 	}
 	sb.WriteByte('}')
 	return sb.String()
